@@ -49,6 +49,8 @@ Section Base.
   Definition ninterp (x : T N) (pts : list (T N * T N)) : T N :=
     match pts with
     | [] => zero
-    | (x0, y0) :: r => if x <=? x0 then y0 else interp_from x x0 y0 r
+    | (x0, y0) :: r =>
+        if x =? x then (if x <=? x0 then y0 else interp_from x x0 y0 r)
+        else x                                   (* binary64 only: a NaN abscissa gives NaN, as numpy does *)
     end.
 End Base.
